@@ -198,11 +198,17 @@ def d2_bootstrap(ctx, obs):
         def __len__(self):
             return self.n
     wrong = []
+    # names of (samples, length): the targets of  <a>, <b> = random_numbers.shape
+    n_s, n_l = 'samples', 'length'
+    for s_ in statements(im):
+        if isinstance(s_, ast.Assign) and isinstance(s_.targets[0], ast.Tuple) and len(s_.targets[0].elts) == 2 and unparse(s_.value).endswith('.shape') \
+                and all(isinstance(e_, ast.Name) for e_ in s_.targets[0].elts):
+            n_s, n_l = s_.targets[0].elts[0].id, s_.targets[0].elts[1].id
     try:
         for smp in range(0, 5):
             for ln in range(0, 5):
                 for nb in range(0, 6):
-                    fired = any(bool(eval(compile(ast.Expression(body=t_), '<guard>', 'eval'), {'__builtins__': {'len': len}}, {'samples': smp, 'length': ln, bp: _B(nb)})) for t_ in gnodes)
+                    fired = any(bool(eval(compile(ast.Expression(body=t_), '<guard>', 'eval'), {'__builtins__': {'len': len}}, {n_s: smp, n_l: ln, bp: _B(nb)})) for t_ in gnodes)
                     if fired != (smp != nb - 1 or smp < ln):
                         wrong.append((smp, ln, nb))
         okg = not wrong
